@@ -207,6 +207,11 @@ def pick(cands, prefer):
     return named[0] if len(named) == 1 else None
 
 
+def _ty(t):
+    """type string without lifetime names: `&'a str` / `&'_ str` / `&'static str` are all `&str` for the role of a parameter"""
+    return re.sub(r"'[A-Za-z_][A-Za-z0-9_]*\s*(?=[A-Za-z&\[(*<])", "", t or "")
+
+
 def roles(c):
     r = {}
     r["nest_jar"] = impl_of(c, "nest_jar")
@@ -225,9 +230,9 @@ def roles(c):
     both = [f for f in ca if any(f is g for g in cu)]
     r["translator_new"] = pick(both, "new")
     r["mappings_lookup"] = remapper_adts.get((r["translator_new"].get("output") or "").split("<")[0]) if r["translator_new"] else None
-    r["add"] = pick([b for b in c.bodies if b.get("name") and len(b.get("inputs") or []) == 2 and b["inputs"][0].startswith("&mut dukenest::nest::Nests")
+    r["add"] = pick([b for b in c.bodies if b.get("name") and len(b.get("inputs") or []) == 2 and _ty(b["inputs"][0]).startswith("&mut dukenest::nest::Nests")
                      and b["inputs"][1] == "dukenest::nest::Nest"], "add")
-    r["read_line"] = pick([b for b in c.bodies if b.get("name") and (b.get("inputs") or []) == ["&str"]
+    r["read_line"] = pick([b for b in c.bodies if b.get("name") and [_ty(t) for t in (b.get("inputs") or [])] == ["&str"]
                            and (b.get("output") or "").startswith("core::result::Result<dukenest::nest::Nest,")], "read_line")
     r["read_loop"] = None
     if r["read_line"]:
@@ -236,12 +241,14 @@ def roles(c):
         r["read_loop"] = pick(callers, "read_from_reader")
     r["split"] = r["inner_name"] = r["classifier"] = None
     if r["map_nests"]:
-        cs = crate_callees(c, r["map_nests"], depth=0)
+        # helpers called from the translation, directly or from a private helper it was split into (a loop body extracted into
+        # `map_nest(remapper, nest)` still calls the same splitter and inner-name function)
+        cs = crate_callees(c, r["map_nests"], depth=2)
         r["split"] = pick([f for f in cs if "core::option::Option<(&" in (f.get("output") or "")], "rsplit_underscore")
         r["inner_name"] = pick([f for f in cs if len(f.get("inputs") or []) == 3 and (f.get("output") or "").startswith("core::result::Result<duke::tree::class::ObjClassName,")], "inner_name")
     if r["inner_name"]:
         enums = {p_ for p_, a in c.adts.items() if a["kind"] == "enum"}
-        r["classifier"] = pick([f for f in crate_callees(c, r["inner_name"], depth=0) if (f.get("output") or "").split("<")[0] in enums], "new")
+        r["classifier"] = pick([f for f in crate_callees(c, r["inner_name"], depth=1) if (f.get("output") or "").split("<")[0] in enums], "new")
     return r
 
 
